@@ -25,6 +25,22 @@ fn message_with_htyp_fill(b: u8, msin: u8, zeros: bool) -> Vec<u8> {
     m
 }
 pub fn htyp_event(b: u8) -> J { htyp_event_fill(b, false) }
+/// the same message with another declared length (shorter than the announced headers, or longer than the bytes): whenever the
+/// parser does return a message, its flags are those of the byte and it re-encodes to the byte
+pub fn htyplen_event(b: u8, len: u16) -> J {
+    let mut bytes = message_with_htyp_fill(b, 0x40, false);
+    bytes[2] = (len >> 8) as u8; bytes[3] = len as u8;
+    let res = match catch_unwind(AssertUnwindSafe(|| dlt_core::parse::dlt_message(&bytes, None, false))) {
+        Err(_) => json!({"v": "panic"}),
+        Ok(Ok((_, dlt_core::parse::ParsedMessage::Item(m)))) => {
+            let h = &m.header;
+            json!({"v": "msg", "ver": h.version, "be": h.endianness == Endianness::Big, "ueh": h.has_extended_header, "weid": h.ecu_id.is_some(), "wsid": h.session_id.is_some(),
+                   "wtms": h.timestamp.is_some(), "reenc": h.header_type_byte()})
+        }
+        Ok(_) => json!({"v": "other"}),
+    };
+    json!({"op": "htyplen", "b": b, "len": len, "res": res})
+}
 pub fn htyp_event_fill(b: u8, zeros: bool) -> J {
     let bytes = message_with_htyp_fill(b, 0x40, zeros);
     let res = match catch_unwind(AssertUnwindSafe(|| dlt_core::parse::dlt_message(&bytes, None, false))) {
@@ -101,6 +117,8 @@ pub fn record(mode: &str, seed: u64, n: usize, out: &mut Out, shard: u32, of: u3
                 out.calls += 4;
                 out.emit(htyp_event(b), true);
                 out.emit(htyp_event_fill(b, true), true);
+                let std = 4 + 4 * ((b >> 2 & 1) + (b >> 3 & 1) + (b >> 4 & 1)) as u16;
+                for len in [4u16, std, std + 4, std + 9, std + 10, std + 13] { out.calls += 1; out.emit(htyplen_event(b, len), true); }
                 out.emit(msin_event(b), true);
             }
             // type-info words through the parser, alternating byte orders on the same raw bytes (palindromic and not)
@@ -155,6 +173,7 @@ pub fn record(mode: &str, seed: u64, n: usize, out: &mut Out, shard: u32, of: u3
 }
 pub fn rerun(ev: &J) -> J {
     match ev["op"].as_str().unwrap_or("") {
+        "htyplen" => htyplen_event(ev["b"].as_u64().unwrap() as u8, ev["len"].as_u64().unwrap() as u16),
         "htyp" => htyp_event_fill(ev["b"].as_u64().unwrap() as u8, ev["zeros"].as_bool().unwrap_or(false)),
         "tipair" => { let b = crate::unproj::bytes(&ev["raw"]); tipair_event([b[0], b[1], b[2], b[3]]) }
         "msin" => msin_event(ev["b"].as_u64().unwrap() as u8),
